@@ -84,6 +84,18 @@ pub fn install() {
     })));
 }
 
+/// a point inside USER code that the library calls back into (waker vtable, closures, ...):
+/// same scheduler hook as `verif_yield`
+pub fn user_point(name: &'static str) {
+    jitter();
+    let cur = CUR.with(|c| c.borrow().clone());
+    if let Some((ctl, i)) = cur {
+        if ctl.active.contains(&name) {
+            ctl.pause(i, name);
+        }
+    }
+}
+
 fn gettid() -> i64 {
     std::fs::read_link("/proc/thread-self")
         .ok()
